@@ -242,7 +242,9 @@ func (c *converter) syncPartial() {
 		delete(ingMap, ing.Namespace+"/"+ing.Name)
 	}
 	for _, ing := range c.changed.IngressesAdd {
-		ingMap[ing.Namespace+"/"+ing.Name] = ing
+		// read from the cache just like the dirty ones: the same batch
+		// might also have updated or removed an ingress it has added
+		ingMap[ing.Namespace+"/"+ing.Name] = nil
 	}
 	ingList := make([]*networking.Ingress, 0, len(ingMap))
 	for name, ing := range ingMap {
